@@ -26,6 +26,10 @@ def solve(A, b, Delta):
     # if we get here, the solution must be on the tr boundary 
     
     sigScale = np.mean( np.abs(sig) )
+    if sigScale == 0:
+        # A = 0: the model is linear in s, its minimizer over the ball is on the boundary opposite to b
+        bNorm = norm(b)
+        return -(Delta/bNorm)*b if bNorm > 0 else 0.*b
     eps = 1e-12 * sigScale
     minSig = sig[0]
 
